@@ -1,2 +1,68 @@
-(** C15 — property theorems only. *)
-From V Require Import Base.Util Gql.Ast C15.Model C15.Spec C15.Proofs.
+(** C15 — property theorems only.  Each is closed by [exact] of a lemma in Proofs*.v and followed by
+    [Print Assumptions]. *)
+From V Require Import Base.Util Gql.Ast C15.Model C15.Spec C15.Proofs1 C15.Proofs2 C15.Proofs3 C15.Proofs.
+
+(** For every schema model M satisfying the guard, every key style and with or without the introspection types in
+    the result: the JSON route accepts the standard introspection result of M, and the Schema it builds is
+    observationally equal (description, root operation types as the checker resolves them, every compared type
+    definition, every directive definition; modulo positions, default-value text and declaration order) to the Schema
+    the SDL route builds from ANY document D that says what the SDL text of M says (up to positions, default-value
+    literals and the order of definitions) and whose schema definitions carry parser positions. *)
+Theorem C15_routes_agree : forall st meta M D,
+  model_ok M = true ->
+  doc_equiv D (sdl_doc M) ->
+  parsed_positions D ->
+  exists Sj, json_route (introspect st meta M) = Ok Sj /\ schema_equiv_on (vis_of M) Sj (ast_to_type_system D).
+Proof. exact routes_agree. Qed.
+Print Assumptions C15_routes_agree.
+
+(** No guard: the JSON route never rejects a standard introspection result, and the optional keys of the
+    result (absent or null) make no difference. *)
+Theorem C15_json_route_total : forall st meta M, exists Sj, json_route (introspect st meta M) = Ok Sj.
+Proof. exact json_route_total. Qed.
+Print Assumptions C15_json_route_total.
+
+Theorem C15_json_key_style_irrelevant : forall meta M,
+  json_route (introspect Full meta M) = json_route (introspect Minimal meta M).
+Proof. exact json_route_style_irrelevant. Qed.
+Print Assumptions C15_json_key_style_irrelevant.
+
+(** What [ast_to_type_system] lets one observe of a document does not depend on positions, default-value literals
+    or the order of definitions. *)
+Theorem C15_sdl_route_respects_doc_equiv : forall D D0 n,
+  doc_equiv D D0 ->
+  option_map norm_typedef (get_type (ast_to_type_system D) n) = option_map norm_typedef (get_type (ast_to_type_system D0) n)
+  /\ option_map norm_directive (get_directive (ast_to_type_system D) n) = option_map norm_directive (get_directive (ast_to_type_system D0) n).
+Proof.
+  intros D D0 n [_ [Ht Hd]]. split; [exact (get_type_doc_equiv D D0 n (Ht n))|exact (get_directive_doc_equiv D D0 n (Hd n))].
+Qed.
+Print Assumptions C15_sdl_route_respects_doc_equiv.
+
+(** The guard and the restriction to [vis_of M] are needed by the code as it is: *)
+Theorem C15_shadow_root_refuted :
+  exists M D Sj,
+    dirs_ok M = true /\ implicit_roots_ok M = true /\ roots_ok M = true /\ desc_ok M = true
+    /\ doc_equiv D (sdl_doc M) /\ parsed_positions D
+    /\ json_route (introspect Full false M) = Ok Sj
+    /\ root_type Sj Mutation = Some (s "Mutation")
+    /\ root_type (ast_to_type_system D) Mutation = None.
+Proof. exact shadow_root_refuted. Qed.
+Print Assumptions C15_shadow_root_refuted.
+
+Theorem C15_unreferenced_builtin_refuted :
+  exists M D Sj,
+    model_ok M = true /\ doc_equiv D (sdl_doc M) /\ parsed_positions D
+    /\ json_route (introspect Full true M) = Ok Sj
+    /\ get_type Sj (s "Float") = None
+    /\ get_type (ast_to_type_system D) (s "Float") <> None.
+Proof. exact unreferenced_builtin_refuted. Qed.
+Print Assumptions C15_unreferenced_builtin_refuted.
+
+Theorem C15_meta_types_refuted :
+  exists M D Sj,
+    model_ok M = true /\ doc_equiv D (sdl_doc M) /\ parsed_positions D
+    /\ json_route (introspect Full true M) = Ok Sj
+    /\ get_type Sj (s "__Schema") <> None
+    /\ get_type (ast_to_type_system D) (s "__Schema") = None.
+Proof. exact meta_types_refuted. Qed.
+Print Assumptions C15_meta_types_refuted.
